@@ -180,8 +180,12 @@ def rule_tuples_shape(repo, rep):
            "under no condition stronger than: tuples input, y given, tuple "
            'size 2')
   if not calls:
-    rep.refuted(Rl, '_util.check_input', site(f),
-                'check_input no longer calls check_y_valid_values_for_pairs')
+    # the call may sit in a helper / a dispatch table: that invalid pair
+    # labels are rejected (and valid ones accepted) for every input layout is
+    # decided by R-INTERP:input-validation-table
+    rep.unknown(Rl, '_util.check_input', site(f), 'check_input does not call '
+                'check_y_valid_values_for_pairs directly') if not \
+        _table_ok(repo, rep) else None
   for c in calls:
     conds = set(astutil.path_condition(f.node, c))
     allowed = {"type_of_inputs == 'tuples'", "type_of_inputs != 'classic'",
@@ -201,6 +205,17 @@ def rule_tuples_shape(repo, rep):
                   % sorted(extra))
     else:
       rep.derived(Rl, '_util.check_input', site(f, c))
+
+
+def _table_ok(repo, rep):
+  from ..report import Report
+  from . import c06b
+  tmp = Report(rep.pid)
+  try:
+    c06b.rule_validation_table(repo, tmp)
+  except Exception:
+    return False
+  return bool(tmp.obs) and all(o['status'] == 'derived' for o in tmp.obs)
 
 
 def rule_label_alphabet(repo, rep):
